@@ -7,3 +7,4 @@ import SparseV.Props.C13
 #print axioms SparseV.C13.no_new_errors_partial
 #print axioms SparseV.C13.snapshot_no_errors
 #print axioms SparseV.C13.coarse_run_is_fine_run
+#print axioms SparseV.C13.pure_calls_independent
